@@ -617,9 +617,8 @@ class RelativeJSONPointer:
                 )
             parts[-1] = f"#{parts[-1]}"
 
-        return JSONPointer.from_parts(
-            parts, unicode_escape=unicode_escape, uri_decode=uri_decode
-        )
+        # The tokens in `parts` have already been decoded.
+        return JSONPointer.from_parts(parts, unicode_escape=False, uri_decode=False)
 
 
 def resolve(
